@@ -332,7 +332,7 @@ theorem host_echo_req (fuel : Nat) (st : St) (b : Nat) (nd : Node) (ifc : Iface)
                       (.echoRep ident), f)) := by
   have hi : st.iface? b 0 = some ifc := by
     unfold St.iface?; unfold St.node? at hn; rw [hn]; simp [hifs]
-  simp only [hostRecv, hn, hi, hon, if_true, host_learn_known st b nd f.srcIp f.srcMac es hn hes, hpl, hd, bne_self_eq_false,
+  simp only [hostRecv, portClosed, Bool.false_eq_true, if_false, hn, hi, hon, if_true, host_learn_known st b nd f.srcIp f.srcMac es hn hes, hpl, hd, bne_self_eq_false,
     Bool.false_eq_true, if_false]
   rfl
 
@@ -344,7 +344,7 @@ theorem host_echo_rep (fuel : Nat) (st : St) (a : Nat) (nd : Node) (ifc : Iface)
         (fun nd => { nd with replies := bumpReply nd.replies ident }), f) := by
   have hi : st.iface? a 0 = some ifc := by
     unfold St.iface?; unfold St.node? at hn; rw [hn]; simp [hifs]
-  simp only [hostRecv, hn, hi, hon, if_true, host_learn_known st a nd f.srcIp f.srcMac es hn hes, hpl]
+  simp only [hostRecv, portClosed, Bool.false_eq_true, if_false, hn, hi, hon, if_true, host_learn_known st a nd f.srcIp f.srcMac es hn hes, hpl]
 
 /-- the server side of the service (`NTPServer.receive`): answer to the frame's source address. -/
 theorem host_data_req (fuel : Nat) (st : St) (b : Nat) (nd : Node) (ifc : Iface) (f : Frame) (es : ArpEntry)
@@ -354,7 +354,7 @@ theorem host_data_req (fuel : Nat) (st : St) (b : Nat) (nd : Node) (ifc : Iface)
       (sendIcmp fuel (st.emit (.sw b f.id f.dstIp (f.dstMac == bcastMac))) b f.srcIp .dataRep, f) := by
   have hi : st.iface? b 0 = some ifc := by
     unfold St.iface?; unfold St.node? at hn; rw [hn]; simp [hifs]
-  simp only [hostRecv, hn, hi, hon, if_true, host_learn_known st b nd f.srcIp f.srcMac es hn hes, hpl, hflag]
+  simp only [hostRecv, portClosed, Bool.false_eq_true, if_false, hn, hi, hon, if_true, host_learn_known st b nd f.srcIp f.srcMac es hn hes, hpl, hflag]
 
 /-- the client side (`NTPClient.receive`): the reply is recorded. -/
 theorem host_data_rep (fuel : Nat) (st : St) (a : Nat) (nd : Node) (ifc : Iface) (f : Frame) (es : ArpEntry)
@@ -364,7 +364,7 @@ theorem host_data_rep (fuel : Nat) (st : St) (a : Nat) (nd : Node) (ifc : Iface)
       ((st.emit (.sw a f.id f.dstIp (f.dstMac == bcastMac))).modNode a (fun nd => { nd with served := true }), f) := by
   have hi : st.iface? a 0 = some ifc := by
     unfold St.iface?; unfold St.node? at hn; rw [hn]; simp [hifs]
-  simp only [hostRecv, hn, hi, hon, if_true, host_learn_known st a nd f.srcIp f.srcMac es hn hes, hpl, hflag,
+  simp only [hostRecv, portClosed, Bool.false_eq_true, if_false, hn, hi, hon, if_true, host_learn_known st a nd f.srcIp f.srcMac es hn hes, hpl, hflag,
     Bool.false_eq_true, if_false]
 
 theorem replyCount_bump (l : List (Nat × Nat)) (ident : Nat) (h : replyCount l ident = none) :
